@@ -30,13 +30,20 @@ let test c =
   let su = counted c stmt in let bo = counted c stmt in let td = counted c stmt in
   let pre = counted c pline in let post = counted c pline in
   { rt_ignored = ign; rt_sel = sel; rt_line = line; rt_setup = su; rt_body = bo; rt_teardown = td; rt_pre = pre; rt_post = post }
+(* optional suffix ":io <sink> <sep> <verbose> <color> <cap>" = console mode (coq/C01_Console.v) *)
 let scenario ts =
   let c = { rest = ts } in
   let cli = bool_tok (next c) in let rethrow = bool_tok (next c) in let filter = bool_tok (next c) in
   let runign = bool_tok (next c) in let repeat = n_tok (next c) in
   let tests = counted c test in
-  { s_cfg = { c_cli = cli; c_rethrow = rethrow; c_filter = filter; c_runign = runign; c_repeat = repeat }; s_tests = tests }
-let has_throws scn = List.exists rhas_throw scn.s_tests
+  let io = match peek c with
+    | Some ":io" -> ignore (next c);
+        let sink = n_tok (next c) in let sep = bool_tok (next c) in let v = bool_tok (next c) in let col = bool_tok (next c) in let cap = n_tok (next c) in
+        Some { i_sink = sink; i_sep = sep; i_verbose = v; i_color = col; i_cap = cap }
+    | _ -> None in
+  if not (at_end c) then raise (Bad "tokens behind the scenario");
+  { x_scn = { s_cfg = { c_cli = cli; c_rethrow = rethrow; c_filter = filter; c_runign = runign; c_repeat = repeat }; s_tests = tests }; x_io = io }
+let has_throws xs = List.exists rhas_throw xs.x_scn.s_tests
 let prep r =
   let ev = List.concat_map (fun e -> [pn e.e_test; pn e.e_phase; pn e.e_idx; pz e.e_depth]) r.r_events in
   let fl = List.concat_map (fun f -> [pn f.f_test; pn f.f_file; pn f.f_line; pn f.f_kind]) r.r_fails in
@@ -47,16 +54,21 @@ let prep r =
     | Some k -> [":k"; pn k.k_tests; pn k.k_run; pn k.k_checks; pn k.k_fail; pn k.k_filt; pn k.k_ign] in
   [Printf.sprintf "%x" (List.length r.r_events)] @ ev @ [Printf.sprintf "%x" (List.length r.r_fails)] @ fl
   @ [Printf.sprintf "%x" (List.length r.r_after)] @ af @ sm @ ct
-let pobs o =
-  String.concat " " ([pbool o.o_escaped; (match o.o_ret with None -> "~" | Some z -> pz z); Printf.sprintf "%x" (List.length o.o_reps)]
-                     @ List.concat_map prep o.o_reps)
+let psum m = [":s"; pbool m.m_ok; (match m.m_nfail with None -> "~" | Some n -> pn n); pn m.m_tests; pn m.m_run; pn m.m_checks; pn m.m_ign; pn m.m_filt]
+let pobs = function
+  | XPlain o ->
+    String.concat " " ([pbool o.o_escaped; (match o.o_ret with None -> "~" | Some z -> pz z); Printf.sprintf "%x" (List.length o.o_reps)]
+                       @ List.concat_map prep o.o_reps)
+  | XConsole c ->
+    String.concat " " ([":io"; pbool c.co_escaped; (match c.co_ret with None -> "~" | Some z -> pz z); Printf.sprintf "%x" (List.length c.co_items)]
+                       @ List.concat_map (function FRec f -> [":f"; pn f.f_test; pn f.f_file; pn f.f_line; pn f.f_kind] | FSum m -> psum m) c.co_items)
 (* the model of the build with exceptions is the one compared; for programs without throw statements the model of the
    build without exceptions must give the same observation (also a theorem: C01_build_independent) *)
 let run_line ts =
   let scn = scenario ts in
-  let a = pobs (run true scn) in
+  let a = pobs (run_x true scn) in
   if has_throws scn then a
-  else let b = pobs (run false scn) in if a = b then a else raise (Bad "the two build variants of the model differ")
+  else let b = pobs (run_x false scn) in if a = b then a else raise (Bad "the two build variants of the model differ")
 let rep_of c =
   let ev = counted c (fun c -> let t = n_tok (next c) in let p = n_tok (next c) in let i = n_tok (next c) in let d = z_tok (next c) in
                                { e_test = t; e_phase = p; e_idx = i; e_depth = d }) in
@@ -76,11 +88,28 @@ let rep_of c =
               Some { k_tests = a; k_run = b; k_checks = cc; k_fail = d; k_filt = e; k_ign = f }
     | t -> raise (Bad ("counters " ^ t)) in
   { r_events = ev; r_fails = fl; r_after = af; r_summary = sm; r_counters = ct }
+let sum_of c =
+  let ok = bool_tok (next c) in let nf = (match next c with "~" -> None | t -> Some (n_tok t)) in
+  let a = n_tok (next c) in let b = n_tok (next c) in let cc = n_tok (next c) in let d = n_tok (next c) in let e = n_tok (next c) in
+  { m_ok = ok; m_nfail = nf; m_tests = a; m_run = b; m_checks = cc; m_ign = d; m_filt = e }
+let fitem_of c = match next c with
+  | ":f" -> let t = n_tok (next c) in let f = n_tok (next c) in let l = n_tok (next c) in let k = n_tok (next c) in
+            FRec { f_test = t; f_file = f; f_line = l; f_kind = k }
+  | ":s" -> FSum (sum_of c)
+  | t -> raise (Bad ("file item " ^ t))
 let spec_line ts os =
   let scn = scenario ts in
   if os = ["skip"] then true else
   let c = { rest = os } in
-  let esc = bool_tok (next c) in
-  let ret = (match next c with "~" -> None | t -> Some (z_tok t)) in
-  let reps = counted c rep_of in
-  at_end c && spec scn { o_escaped = esc; o_ret = ret; o_reps = reps }
+  match peek c with
+  | Some ":io" ->
+    ignore (next c);
+    let esc = bool_tok (next c) in
+    let ret = (match next c with "~" -> None | t -> Some (z_tok t)) in
+    let items = counted c fitem_of in
+    at_end c && spec_x scn (XConsole { co_escaped = esc; co_ret = ret; co_items = items })
+  | _ ->
+    let esc = bool_tok (next c) in
+    let ret = (match next c with "~" -> None | t -> Some (z_tok t)) in
+    let reps = counted c rep_of in
+    at_end c && spec_x scn (XPlain { o_escaped = esc; o_ret = ret; o_reps = reps })
